@@ -18,7 +18,7 @@ def maxabs(case):
 PRED_SIG = {
     "P01": ("GHHV", 0),
     "P07": ("TTT", 0),
-    "P06": ("GHTT", 0), "P06S": ("T", 0), "P04": ("GHT", 0), "P05": ("GHTV", 0), "J05": ("GHTV", 0),
+    "P06": ("GHTT", 0), "P06S": ("T", 0), "P04": ("GHT", 0), "P05": ("GHTV", 0), "J05": ("GHTV", 0), "P09": ("GHTV", 0),
 }
 for k, v in PRED_SIG.items(): corr.OPSIG[k] = v
 
@@ -214,6 +214,19 @@ PROPS["C05"] = dict(
     assumptions=["model = hand-written Gallina mirror of every Jacobian-returning operation (per-group closed forms and the chain-rule Jacobians of LieGroupBase); tied to /repo by exact comparison over the rational scalar for every subset of requested outputs",
                  "proved over the reals: the theorems listed in Properties_C05.v; every other Jacobian is tested, not proved: the analytic Jacobian against forward differences (step 1e-30) of the same operation, both evaluated by manif's own templates in 100-digit arithmetic, and the double-precision Jacobian against the 100-digit one (tolerance 1e-5 relative; the property says about 1e-6)"],
 )
+
+P09_PAIRS = ['compose value with {Ja}', 'compose value with {Jb}', 'compose value with {Ja,Jb}', 'compose Ja alone = Ja with Jb', 'compose Jb alone = Jb with Ja', 'between value with {Ja}', 'between value with {Jb}', 'between value with {Ja,Jb}', 'between Ja alone = Ja with Jb', 'between Jb alone = Jb with Ja', 'rplus value with {Ja}', 'rplus value with {Jb}', 'rplus value with {Ja,Jb}', 'rplus Ja alone = Ja with Jb', 'rplus Jb alone = Jb with Ja', 'lplus value with {Ja}', 'lplus value with {Jb}', 'lplus value with {Ja,Jb}', 'lplus Ja alone = Ja with Jb', 'lplus Jb alone = Jb with Ja', 'rminus value with {Ja}', 'rminus value with {Jb}', 'rminus value with {Ja,Jb}', 'rminus Ja alone = Ja with Jb', 'rminus Jb alone = Jb with Ja', 'lminus value with {Ja}', 'lminus value with {Jb}', 'lminus value with {Ja,Jb}', 'lminus Ja alone = Ja with Jb', 'lminus Jb alone = Jb with Ja', 'act value with {Ja}', 'act value with {Jb}', 'act value with {Ja,Jb}', 'act Ja alone = Ja with Jb', 'act Jb alone = Jb with Ja', 'inverse value with J', 'log value with J', 'exp value with J', 'compose: outputs bound to blocks of a larger matrix write exactly those blocks', 'compose value with block outputs', 'rminus: outputs bound to blocks write exactly those blocks', 'rminus value with block outputs', 'operand X unchanged', 'operand Y unchanged', 'operand t unchanged', 'operand p unchanged', 'compose repeated after other calls', 'rminus repeated after other calls', 'log Jacobian repeated after other calls', 'Z=Z*Z', 'Z=Z.inverse()', 'Z*=Z', 'Z=Z.compose(Y)', 'Z=X.compose(Z)', 'Map += t', 'Map = Map.between(Y)', 't=t+t']
+P09 = dict(op="P09", pairs=P09_PAIRS, dtol=0.0, dscale=lambda c: 1.0)
+PROPS["C09"] = dict(
+    vfiles=["Properties_C09.v"], level="proof",
+    groups=BASE_GROUPS,
+    corr_ops=["Inverse", "Log", "Exp", "Compose", "Between", "Rplus", "Lplus", "Plus", "Rminus", "Lminus", "Minus", "Act", "TPlus", "TMinus"],
+    preds=[P09],
+    n=dict(quick=(24, 30), thorough=(300, 400)),
+    assumptions=["the model is a pure function of its arguments by construction (Gallina); what is checked against the code is that every subset of requested outputs, outputs bound to blocks of a larger matrix, repeated calls after other library activity and aliased assignments all agree with it exactly (rational scalar) and with each other bit for bit (double)",
+                 "function-local statics: their values are compared with a fresh evaluation (Identity vs setIdentity) in the correspondence; their thread-safety belongs to C14"],
+)
+PROPS["C05"]["preds"].append(P09)
 
 PROPS["C06"] = dict(
     vfiles=["Properties_C06.v"], level="proof",
